@@ -363,3 +363,55 @@ func tname(t reflect.Type) string {
 	flush()
 	return out.String()
 }
+
+// declName names the type that actually declares `method` in the method set of ptr: a method promoted from an
+// embedded field is the embedded type's code (rlwe.RelinearizationKey.ReadFrom is rlwe.EvaluationKey.ReadFrom),
+// and a defect in it is one defect, not one per embedding type.
+func declName(ptr any, method string) string {
+	t := reflect.TypeOf(ptr).Elem()
+	for {
+		if t.Kind() != reflect.Struct {
+			break
+		}
+		next := reflect.Type(nil)
+		for i := 0; i < t.NumField(); i++ {
+			f := t.Field(i)
+			if !f.Anonymous {
+				continue
+			}
+			ft := f.Type
+			if ft.Kind() == reflect.Ptr {
+				ft = ft.Elem()
+			}
+			if _, ok := reflect.PtrTo(ft).MethodByName(method); ok {
+				next = ft
+				break
+			}
+		}
+		if next == nil {
+			break
+		}
+		if declaresOwn(t, method) {
+			break // declared (possibly as a wrapper) by the outer type itself: the embedded one is shadowed
+		}
+		t = next
+	}
+	return tname(t) + "." + method
+}
+
+// declaresOwn: the method is written in t's own source (compiler-generated promotion and pointer wrappers live
+// in "<autogenerated>").
+func declaresOwn(t reflect.Type, method string) bool {
+	real := func(m reflect.Method, ok bool) bool {
+		if !ok {
+			return false
+		}
+		f := runtime.FuncForPC(m.Func.Pointer())
+		if f == nil {
+			return false
+		}
+		file, _ := f.FileLine(m.Func.Pointer())
+		return file != "<autogenerated>"
+	}
+	return real(t.MethodByName(method)) || real(reflect.PtrTo(t).MethodByName(method))
+}
